@@ -203,3 +203,59 @@ Proof.
   { rewrite map_fst_combine_x; [apply seq_NoDup | rewrite seq_length, draws_length; reflexivity]. }
   apply (zassoc_like_unique _ _ _ _ ND H1 H2).
 Qed.
+
+(* ---- the worker count enters only through the effective chunk size *)
+Theorem same_chunks_same_result :
+  forall (A S : Type) (draw : S -> Z * S) (work_rows : nat -> nat -> Z -> list (record A))
+         (cell_order : list Z) (s : S) (n p1 p2 c : nat) (s1 s2 : list nat),
+  eff_chunk n p1 c = eff_chunk n p2 c ->
+  Permutation s1 s2 ->
+  NoDup (map fst (gather_list A (chunk_work A work_rows n (eff_chunk n p1 c))
+                              (draws S draw (length (chunks n (eff_chunk n p1 c))) s) s1)) ->
+  mapping_result A S draw work_rows cell_order s n p1 c s1 =
+  mapping_result A S draw work_rows cell_order s n p2 c s2.
+Proof.
+  intros A S draw work_rows co s n p1 p2 c s1 s2 He HP ND. unfold mapping_result.
+  rewrite <- He. apply final_list_schedule_independent; assumption.
+Qed.
+
+(* chunking facts: the chunks tile 0..n in order *)
+Lemma eff_chunk_pos n p c : (1 <= c)%nat -> (1 <= eff_chunk n p c)%nat.
+Proof. intros Hc. unfold eff_chunk. lia. Qed.
+
+Lemma chunks_length n cs : length (chunks n cs) = ceil_div n cs.
+Proof. unfold chunks. rewrite map_length, seq_length. reflexivity. Qed.
+
+(* ---- statistics: whatever the schedule, a clean drain merges the partial sums in
+   dispatch order; two runs with clean workers agree *)
+Theorem stats_merge_order_fixed :
+  forall (A : Type) (add : A -> A -> A) (zero : A) (partial : nat -> A) (W1 W2 : world) (n1 n2 k : nat),
+  (1 <= n1)%nat -> (1 <= n2)%nat ->
+  (forall w, (w < k)%nat -> code W1 w = 0%Z) -> (forall w, (w < k)%nat -> code W2 w = 0%Z) ->
+  stats_result A add zero partial W1 n1 k = Some (merge_stats A add zero partial k) /\
+  stats_result A add zero partial W2 n2 k = stats_result A add zero partial W1 n1 k.
+Proof.
+  intros A add zero partial W1 W2 n1 n2 k H1 H2 Hz1 Hz2.
+  assert (R : forall W n, (1 <= n)%nat -> (forall w, (w < k)%nat -> code W w = 0%Z) ->
+              fst (run_pool_list W n k) = POk).
+  { intros W n Hn Hz. destruct (pool_raises false W n k Hn) as (Hh & _ & Hr & _).
+    unfold stage_result in *. destruct (fst (run_pool_list W n k)) as [|w c|]; [reflexivity| |contradiction].
+    destruct (Hr w c eq_refl) as (Hw & Hc & Hnz). exfalso. apply Hnz. rewrite Hc. apply Hz. exact Hw. }
+  unfold stats_result. rewrite (R W1 n1 H1 Hz1), (R W2 n2 H2 Hz2). split; reflexivity.
+Qed.
+
+(* ---- reference markers: the chunks are merged in sorted key order whatever the order in
+   which the keys are listed *)
+Theorem marker_merge_sorted : forall (A : Type) (chunk : Z -> list A) (k1 k2 : list Z),
+  Permutation k1 k2 -> merge_markers chunk k1 = merge_markers chunk k2.
+Proof. intros A chunk k1 k2 HP. unfold merge_markers. rewrite (zsort_perm_eq k1 k2 HP). reflexivity. Qed.
+
+(* ---- selection: what the caller reads per parent does not depend on the order in which
+   the workers filled the dict (distinct parents) *)
+Theorem selection_keyed_by_parent : forall (A : Type) (parents : list Z) (f1 f2 : list (Z * A)),
+  Permutation f1 f2 -> NoDup (map fst f1) -> read_keyed parents f1 = read_keyed parents f2.
+Proof.
+  intros A parents f1 f2 HP ND. unfold read_keyed. apply map_ext. intros p. apply zassoc_perm.
+  - rewrite <- !Permutation_rev. exact HP.
+  - eapply Permutation_NoDup; [apply Permutation_map; apply Permutation_rev | exact ND].
+Qed.
